@@ -36,6 +36,9 @@ CheckBudget(e) ==
   \cup Tag(e.limit > 0 => 2 * work <= 3 * e.limit + 2 * C, "work-not-bounded-by-budget")
   \cup Tag(e.maxExcess <= C, "work-not-accounted")
   \cup Tag(e.monotone, "counter-decreased")
+  \* ... and the counter the host reads AFTER the run accounts for the work as well (an evaluation that ends in an error inside a
+  \* function or computed value must hand its count back)
+  \cup Tag(cut \/ work - 2 * e.ops <= C, "count-lost-at-return")
   \cup (IF cut THEN {}
         ELSE \* Budget!FailClosed
              Tag((e.limit > 0 /\ e.ops > e.limit) => e.err, "fail-open")
